@@ -124,7 +124,7 @@ class Feature(VariabilityElement):
         parent: Optional["Feature"] = None,
         is_abstract: bool = False,
         feature_type: FeatureType = FeatureType.BOOLEAN,
-        feature_cardinality: Cardinality = Cardinality(1, 1)
+        feature_cardinality: Optional[Cardinality] = None
     ):
         super().__init__(name)
         self.name = name
@@ -132,7 +132,9 @@ class Feature(VariabilityElement):
         self.parent = self._get_parent() if parent is None else parent
         self.is_abstract = is_abstract
         self.feature_type = feature_type
-        self.feature_cardinality = feature_cardinality
+        # a fresh [1..1] per feature: a default object in the signature would be shared by all features
+        self.feature_cardinality = (Cardinality(1, 1) if feature_cardinality is None
+                                    else feature_cardinality)
         self.attributes = list["Attribute"]([])
 
     def is_empty(self) -> bool:
